@@ -17,6 +17,8 @@ structure Oracle where
   proposals : List (Tid × Mid) := []               -- oracle algorithm: new proposals
   pre : List ClOp := []                            -- oracle algorithm: own reservations
   plan : List (Nat × Mid × Nat × Nat) := []        -- static plan: (node, machine, est, eft)
+  delayTable : List (Nat × Nat) := []              -- delay model as a table: nominal ↦ total
+  delayScript : List Nat := []                     -- scripted delays: k-th started task gets +script[k % len]
   deriving Repr, Inhabited
 
 inductive Yield where
@@ -233,7 +235,16 @@ def doWorkBlock (s : Sys) (now : Time) (orc : Oracle) (t : Tid) (m : Mid) (preds
       match nominalDuration r.flops r.data mm.cpu mm.bw r.duration with
       | .error e => (s, .doWork t m preds 2 total, .raised e)
       | .ok dur =>
-        let tot := orc.total.getD dur
+        let tot := match orc.total with
+          | some t => t
+          | none =>
+            if t.isIngest then dur               -- ingest tasks carry no delay model
+            else match dictGet orc.delayTable dur with
+            | some t => t
+            | none =>
+              if orc.delayScript.isEmpty then dur
+              else dur + orc.delayScript.getD
+                ((s.starts.filter (fun x => !x.isIngest)).length % orc.delayScript.length) 0
         let s1 := s.updTask t (fun r => { r with status := .running, ast := some now, duration := dur })
         let s2 := { s1 with starts := s1.starts ++ [t], active := s1.active ++ [(m, t)] }
         (s2, .doWork t m preds 2 tot, .timeout (bodyWait tot : Nat))
@@ -342,6 +353,10 @@ def updateAllocation (r : TaskRec) (mm : Machine) : TaskRec :=
     { r1 with delayFlag := true, delayOffset := ((dur - r1.duration : Nat) : Int), duration := dur }
   else r1
 
+/-- `_find_pred_allocations`: the predecessors recorded on a different machine -/
+def crossPreds (pairs : List (Tid × Mid)) (preds : List Tid) (m : Mid) : List Tid :=
+  preds.filter (fun p => dictGet pairs p != some m)
+
 structure PcsSt where
   s : Sys
   schedule : List (Tid × Mid)
@@ -371,7 +386,7 @@ def processOne (now : Time) (oid : Oid) (st : PcsSt) (t : Tid) : PcsSt :=
             let missing := r.preds.any (fun p => !dictHas pairs1 p)
             if missing then { st with s := s1, pairs := pairs1, err := some .key }
             else
-              let cross := r.preds.filter (fun p => dictGet pairs1 p != some m)
+              let cross := crossPreds pairs1 r.preds m
               if r.status ≠ .unscheduled then { st with s := s1, pairs := pairs1, err := some .runtime }
               else
                 let (s2, _) := s1.spawn (.allocTask t m cross (some oid) false 0) now
